@@ -462,7 +462,37 @@ def run(rep, tier):
     for meth, target in (("co_positions", "parse_location_entries"), ("co_lines", "parse_linetable")):
         m = C.lookup(meth) if isinstance(C, ClassRef) else None
         src = ast.unparse(m.node) if isinstance(m, FuncRef) else ""
-        rep.ob("R3", "xdis.codetype.code311.Code311.%s" % meth, "uses:%s" % target, ("%s(self.co_linetable, self.co_firstlineno)" % target) in src,
+        rep.ob("R3", "xdis.codetype.code311.Code311.%s" % meth, "uses:%s" % target, ("%s(self.co_linetable, self.co_firstlineno)" % target) in src.replace("\n", " ").replace("  ", ""),
                expected="%s(self.co_linetable, self.co_firstlineno)" % target, derived=src[-80:])
+    # co_positions() expands each decoded entry to one (lineno, end_lineno, col, end_col) tuple per code unit, like the native method
+    cp = C.lookup("co_positions") if isinstance(C, ClassRef) else None
+    if not isinstance(cp, FuncRef):
+        raise AnalysisError("anchor vanished: xdis.codetype.code311.Code311.co_positions")
+
+    def ple_hook(spec, name, fv, args, kw, node):
+        if name.endswith("parse_location_entries"):
+            spec.effect("ple", tuple(show(a) for a in args), node=node)
+            return Sym("entries", "list")
+        return NotImplemented
+    me = Instance(C)
+    me.attrs.update(co_linetable=Sym("table", "bytes"), co_firstlineno=Sym("first", "int"))
+    sp = Spec(F, hooks=[ple_hook])
+    sp.run(cp, [me])
+    outer = [e.args[3] for e in sp.effects if e.kind == "loop"]
+    shape_ok, got = False, None
+    if len(outer) == 1 and show(outer[0].cond) == "iter-more(entries)":
+        el = "%s:elem" % outer[0].tag
+        inner = [e.args[3] for e in outer[0].effects if e.kind == "loop"]
+        if len(inner) == 1:
+            ys = [e for e in inner[0].effects if e.kind == "yield"]
+            got = {"repeat": show(inner[0].cond), "yield": [show(y.args[0]) for y in ys]}
+            shape_ok = show(inner[0].cond) == "iter-more(range(item(%s, 0)))" % el and len(ys) == 1 and \
+                show(ys[0].args[0]) == "(item(%s, 1), item(%s, 2), item(%s, 3), item(%s, 4))" % (el, el, el, el)
+        else:
+            got = "entries are yielded as they are (no per-code-unit expansion)" if any(e.kind == "yield" for e in outer[0].effects) else "no inner loop"
+    else:
+        got = "returns %s" % [e.kind for e in sp.effects][:3]
+    rep.ob("R3", cp.qualname, "one-tuple-per-code-unit", shape_ok, expected="for each entry (length, l, el, c, ec): `length` times (l, el, c, ec)", derived=got,
+           msg="Code311.co_positions() does not produce one (lineno, end_lineno, col_offset, end_col_offset) tuple per code unit as types.CodeType.co_positions() does")
     rep.assumptions = ["Objects/locations.md and Objects/exception_handling_notes.txt of CPython 3.11-3.13 as transcribed in DESIGN.md Appendix A.5",
-                       "the per-code-unit expansion of co_positions() is not decided (entry decoding only); co_lines() ranges may be split more finely than CPython's (line per code unit is what is decided)"]
+                       "co_lines() ranges may be split more finely than CPython's (line per code unit is what is decided)"]
